@@ -138,7 +138,9 @@ struct Run {
   std::vector<uint64_t> task_eh;         // per task: what that caller observed, in its own order
   bool fault_seen = false;
   RunResult *res = nullptr;
+  std::vector<uint64_t> task_sh;         // per task: logical time (library edges executed per call); not an observation
   void ev(uint64_t x) { task_eh[t_cur_ti] = (task_eh[t_cur_ti] ^ x) * 0x100000001b3ULL; }
+  void ev_steps(uint64_t x) { task_sh[t_cur_ti] = (task_sh[t_cur_ti] ^ x) * 0x100000001b3ULL; }
   void ev_global(uint64_t x) { eh = (eh ^ x) * 0x100000001b3ULL; }
 };
 
@@ -307,7 +309,7 @@ static char classify_mov(const uint8_t *p, long avail, int *len) {
 }
 
 static void probe_instance(Run &R, TaskRt &T, Inst &I, int ti, int oi, const Op *op) {
-  if (!I.m.live || !I.al || !I.m.external || I.m.cap < 64) return;
+  if (!I.m.live || !I.al || (I.m.external && I.m.cap < 64)) return;
   char *tb = textbuf_new(PROBE_TEXT, false);
   int ret = -1, off = -1;
   int j = in_lib(R, T.actx, [&] {
@@ -317,7 +319,12 @@ static void probe_instance(Run &R, TaskRt &T, Inst &I, int ti, int oi, const Op 
   });
   if (crashed(R, ti, oi, op, T.actx, j, &I)) return;
   R.st.probes++;
-  const uint8_t *b = extbuf_ptr(I.ext);
+  CodeView pcv = view_code(R, T, I);
+  if (!pcv.ok) {
+    violate(R, ti, oi, op, "code_ptr", pcv.why, M_PLAIN, I.m.external);
+    return;
+  }
+  const uint8_t *b = pcv.p;
   std::string got;
   long p = 0;
   bool parse_ok = ret == 0 && off > 0 && off <= 40;
@@ -356,12 +363,7 @@ static void probe_instance(Run &R, TaskRt &T, Inst &I, int ti, int oi, const Op 
   I.m.offset = 0;
   I.m.offset_unspec = ret != 0;
   I.m.segs.clear();
-  {
-    CodeView pv;
-    pv.p = b;
-    pv.cap = I.m.cap;
-    refresh_mirror(I, pv, 0);
-  }
+  refresh_mirror(I, pcv, 0);
   if (!parse_ok || got != want) {
     char hex[200];
     int n = 0;
@@ -492,7 +494,7 @@ static void exec_asm(Run &R, TaskRt &T, int ti, int oi, const Op &op) {
   check_memory(R, ti, oi, &op, &I);
   if (R.v.violated) return;
   R.ev(mix64((uint64_t)op.kind << 8 | (uint64_t)(ret & 0xff), (uint64_t)(uint32_t)off));
-  R.ev((uint64_t)sim_steps_now());
+  R.ev_steps((uint64_t)sim_steps_now());
 
   // bytes below the start of this call are never modified
   if (!unspec_before && start >= 0) {
@@ -1167,6 +1169,7 @@ static RunResult run_plan_once(const Plan &p, const RunOptions &o) {
   sim_begin_run(p.world);
   for (size_t i = 0; i < p.tasks.size(); i++) R.tasks.push_back(new TaskRt());
   R.task_eh.assign(p.tasks.size() + 1, 0xcbf29ce484222325ULL);
+  R.task_sh.assign(p.tasks.size() + 1, 0xcbf29ce484222325ULL);
 
   if (p.fine && p.tasks.size() >= 1) {
     run_fine(R);
@@ -1213,7 +1216,13 @@ static RunResult run_plan_once(const Plan &p, const RunOptions &o) {
   }
   sim_end_run();
   res.v = R.v;
-  for (uint64_t h : R.task_eh) R.ev_global(h);
+  uint64_t obs = 0xcbf29ce484222325ULL;
+  for (uint64_t h : R.task_eh) {
+    R.ev_global(h);
+    obs = (obs ^ h) * 0x100000001b3ULL;
+  }
+  for (uint64_t h : R.task_sh) R.ev_global(h);
+  res.obs_hash = obs;
   res.event_hash = R.eh;
   res.task_hashes = R.task_eh;
   res.st = R.st;
